@@ -632,7 +632,9 @@ func (r *reference) judge(o Op, res result) *failure {
 			return nil
 		}
 		if r.isFile && r.ignore {
-			if res.err != nil {
+			// the content is discarded; a manifest is still read and verified (to restore
+			// titled successors), so bytes that do not match may be refused
+			if res.err != nil && (valid || !isManifestMT(d.MediaType)) {
 				return fail("push-ignored", "IgnoreNoName push %s returned %v", o, res.err)
 			}
 			return nil
